@@ -19,7 +19,7 @@ S_NOTE = ("Trusted: symonnx operator semantics (mine; validated at every run aga
 CLAIMED = {
     "C01": dict(
         category="translation_validation", design_ref="§5 C01", engine="S",
-        text="For each program (hand-written core exhausting the interaction shapes + seeded random typed grammar) and input-shape assignment, the real eager path is executed over symbolic tensors (forking on tensor->bool/int), the protos from the real converter are interpreted symbolically, and z3 decides per eager path that outputs agree for ALL input values; both the to_model_proto and the to_function_proto leg. Structure enumerated, values decided. Side verdict (structural): every operator an eager path executes must occur in the exported graph, and every call of a non-schema domain must find its FunctionProto in the model; a difference is replayed on the real eager code / onnxruntime with NaN and +-inf inputs (the only place where e.g. Not(Greater) and LessOrEqual differ).",
+        text="For each program (hand-written core exhausting the interaction shapes + seeded random typed grammar) and input-shape assignment, the real eager path is executed over symbolic tensors (forking on tensor->bool/int), the protos from the real converter are interpreted symbolically, and z3 decides per eager path that outputs agree for ALL input values; both the to_model_proto and the to_function_proto leg. Structure enumerated, values decided. Side verdict (structural): every operator an eager path executes must occur in the exported graph, and every call of a non-schema domain must find its FunctionProto in the model; a difference is replayed on the real eager code / onnxruntime with NaN and +-inf inputs (the only place where e.g. Not(Greater) and LessOrEqual differ). Core corpus extended: uses that are not plain operands (loop bound, keyword-input expressions), float %, repeated subscripts needing temporaries, Python constants merged by an If; index arithmetic inside Tensor.__getitem__ is exempt from the operator-correspondence side verdict; a proto onnx_ir cannot deserialize is a malformed verdict.",
         note=S_NOTE, technique="translation validation: symbolic ONNX semantics + forking symbolic eager execution, z3 equivalence per path, ORT/eager replay"),
     "C02": dict(
         category="other", design_ref="§5 C02", engine="X+S",
@@ -36,24 +36,24 @@ CLAIMED = {
         note=S_NOTE + " Side verdicts are enumeration, not solver verdicts.", technique="translation validation with symbolic override values for initializer-inputs; structural side verdicts per run"),
     "C05": dict(
         category="translation_validation", design_ref="§5 C05", engine="S",
-        text="For every rule exported by rules.common (all 53 encoded; every rule fires on some host except dropout_inference_rule, which is shown vacuous from the installed schemas at every run) and every host of the rule's families (instances and near-misses over operand ranks 0-3, [1]/[1,1] constants, inverted/eps/almost-1 constants, three constant forms incl. overridable graph inputs, attribute variants, zero-size dims, rank-raising one-element constants, ScatterND reductions, sequence ops at opsets 13/17/18): the single rule is applied with the real RewriteRuleSet; where it fires symonnx interprets host and result and z3 decides equality of all outputs for ALL input values (forward-error bound for recomputed float constants); validity for the declared opset is part of the schema-keyed interpretation. Symbolic-declaration leg: hosts of the families whose rules read declared shapes are re-declared in nine modes (shared / distinct / unnamed symbols, leading dim only, distinct symbols beside a static 1, anonymous value_info dims), the rule is applied once to the declared model and, where it fires, original and result are compared by z3 for every binding of <=4 symbols over {0,1,2,3,7}.",
+        text="For every rule exported by rules.common (all 53 encoded; every rule fires on some host except dropout_inference_rule, which is shown vacuous from the installed schemas at every run) and every host of the rule's families (instances and near-misses over operand ranks 0-3, [1]/[1,1] constants, inverted/eps/almost-1 constants, three constant forms incl. overridable graph inputs, attribute variants, zero-size dims, rank-raising one-element constants, ScatterND reductions, sequence ops at opsets 13/17/18): the single rule is applied with the real RewriteRuleSet; where it fires symonnx interprets host and result and z3 decides equality of all outputs for ALL input values (forward-error bound for recomputed float constants); validity for the declared opset is part of the schema-keyed interpretation. Symbolic-declaration leg: hosts of the families whose rules read declared shapes are re-declared in nine modes (shared / distinct / unnamed symbols, leading dim only, distinct symbols beside a static 1, anonymous value_info dims), the rule is applied once to the declared model and, where it fires, original and result are compared by z3 for every binding of <=4 symbols over {0,1,2,3,7}. Second layer (added): CrossHair/z3 side-condition lemmas on the CURRENT source of the rules' check/rewrite functions with constants, attributes, static dims and the runtime values of symbolic / anonymous dims as unbounded symbolic integers: TransposeTranspose (all permutation pairs, rank 2-3 quick, 4 thorough), TransposeIdentity, UnsqueezeUnsqueeze (all axes, rank 0..4), collapse_slice, SlicesSplit (found the odd-last-dim defect), MaterializeReshapeShape (found the [-1,0] allowzero defect), Expand-before-binary-op strategies 1-3 (ranks 0..2 of x, y; target rank 1..3); hosts now span every operator of _BROADCAST_BINARY_OPS with its attributes, Conv padding-attribute variants for the affine fusions, mixed-rank Min/Max constants; quick thinning is stratified by tag shape.",
         note=S_NOTE + " Bindings of the symbolic leg are enumerated, values under each binding decided by z3. rules.fusion (sqrt/trig identities) is outside the claim; QLinearConv is encoded for concrete scales only; float16 rounding is not modelled (floats are reals).",
-        technique="translation validation per rule and host: symbolic ONNX semantics, z3 equivalence for all inputs, onnxruntime replay"),
+        technique="translation validation per rule and host: symbolic ONNX semantics, z3 equivalence for all inputs, onnxruntime replay; CrossHair+z3 integer side-condition lemmas on the rules' real check/rewrite functions"),
     "C09": dict(
         category="translation_validation", design_ref="§5 C09", engine="S",
-        text="Host models (shape-computation models + rule hosts) are re-declared with symbolic input dims (nine modes: shared names, distinct names for equal sizes, unnamed, leading-dim only, distinct symbols beside a static 1, anonymous value_info dims); optimize() runs once per declared model; for every binding of <=3 symbols to {0,1,2,3,7} symonnx interprets original and optimized model at the bound shapes and z3 decides equality for all input values; a binding on which exactly one model fails is a counterexample (same accepted inputs).",
+        text="Host models (shape-computation models + rule hosts) are re-declared with symbolic input dims (nine modes: shared names, distinct names for equal sizes, unnamed, leading-dim only, distinct symbols beside a static 1, anonymous value_info dims); optimize() runs once per declared model; for every binding of <=3 symbols to {0,1,2,3,7} symonnx interprets original and optimized model at the bound shapes and z3 decides equality for all input values; a binding on which exactly one model fails is a counterexample (same accepted inputs). Second layer (added): CrossHair/z3 lemmas on the predicates and partial evaluators that justify the simplifications, for EVERY binding (dim kinds by bounded symbolic index, static dims and runtime values unbounded symbolic integers): optimizer._same_shape, _ir_utils.same_shape / same_dim, the Expand and Reshape evaluators on real ir.Node / OptimizerState objects, _merge_shapes (ranks 0..2 quick, 3 thorough).",
         note=S_NOTE + " Bindings are enumerated over {0,1,2,3,7}; values under each binding are decided by z3.",
-        technique="translation validation under enumerated shape bindings: symbolic ONNX semantics, z3 equivalence, onnxruntime replay"),
+        technique="translation validation under enumerated shape bindings: symbolic ONNX semantics, z3 equivalence, onnxruntime replay; CrossHair+z3 predicate/evaluator lemmas over all bindings"),
     "C06": dict(
         category="other", design_ref="§5 C06", engine="X",
-        text="CrossHair/z3 symbolic execution of the real Pattern.match on sixteen structure classes; host leaves are symbolic (op-type and domain indices over an alphabet with 'other', unbounded attribute ints, constant value from an edge table, sharing / extra-consumer / graph-output booleans); verdict and bindings must equal a declarative spec of 'is an instance' (incl. commute=True vs plain vs non-commutative ops, allow_other_inputs/attributes in all three settings, OR alternatives with tag and backtracking ORs that share a variable or a node pattern with their context, optional / typed / reference attributes, one of two outputs, multi-output anchoring, removability). Structure classes and wiring are enumerated.",
+        text="CrossHair/z3 symbolic execution of the real Pattern.match on sixteen structure classes; host leaves are symbolic (op-type and domain indices over an alphabet with 'other', unbounded attribute ints, constant value from an edge table, sharing / extra-consumer / graph-output booleans); verdict and bindings must equal a declarative spec of 'is an instance' (incl. commute=True vs plain vs non-commutative ops, allow_other_inputs/attributes in all three settings, OR alternatives with tag and backtracking ORs that share a variable or a node pattern with their context, optional / typed / reference attributes, one of two outputs, multi-output anchoring, removability). Structure classes and wiring are enumerated. Classes added: c19 explicit-None input with/without allow_other_inputs, c20 pattern node with more outputs than the host node, c21 numeric pattern constant against non-numeric payloads, c22 commute over a backtracking OR without tag variable (22 classes).",
         note="Trusted: CrossHair models; my per-class specs (validated by concrete sweeps); const_value stub. Host wiring beyond the sixteen classes is outside the claim; one recorded region (a backtracking OR commits to its first local success).",
         technique="symbolic execution (CrossHair+z3) of the real matcher against declarative instance specs, vacuity twins"),
     "C07": dict(
         category="translation_validation", design_ref="§5 C07", engine="S",
-        text="Seventeen generated rules (re-emission via a different op, operand swap, double transpose/negation, x*1 - also with a replacement that returns the pattern input itself -, two-output and two-root patterns with consumers between the matched nodes, replacement with a new initializer, as_function, remove_nodes=False, a rule with per-graph state kept through the visitor hooks) whose p==r is itself proved on the k=1 host; hosts with k<=3 separated/adjacent instances, matched outputs that are graph outputs, intermediates with extra consumers, instances inside If bodies (depth<=2), Loop bodies, model-local functions and If branches of functions, one value bound to several pattern inputs, initializer name clashes; random hosts (6 quick / 150 thorough per rule). symonnx + z3 decide [[M]] == [[rewrite(M,[rule])]] for all inputs; validity, signature, unmatched-node multiset and minimum application count are side verdicts.",
+        text="Seventeen generated rules (re-emission via a different op, operand swap, double transpose/negation, x*1 - also with a replacement that returns the pattern input itself -, two-output and two-root patterns with consumers between the matched nodes, replacement with a new initializer, as_function, remove_nodes=False, a rule with per-graph state kept through the visitor hooks) whose p==r is itself proved on the k=1 host; hosts with k<=3 separated/adjacent instances, matched outputs that are graph outputs, intermediates with extra consumers, instances inside If bodies (depth<=2), Loop bodies, model-local functions and If branches of functions, one value bound to several pattern inputs, initializer name clashes; random hosts (6 quick / 150 thorough per rule). symonnx + z3 decide [[M]] == [[rewrite(M,[rule])]] for all inputs; validity, signature, unmatched-node multiset and minimum application count are side verdicts. Plus a CrossHair/z3 inductive-step lemma on the as_function overload allocator (_get_new_overload) from an arbitrary set of existing functions (7-key table, gaps included).",
         note=S_NOTE + " Rules must be terminating (a replacement containing its own pattern makes the rewriter loop: property of the rule). Metadata merging unchecked.",
-        technique="translation validation of generated rewrite rules on generated hosts: symbolic ONNX semantics, z3 equivalence, structural side verdicts"),
+        technique="translation validation of generated rewrite rules on generated hosts: symbolic ONNX semantics, z3 equivalence, structural side verdicts; CrossHair+z3 inductive-step lemma on the overload allocator"),
     "C10": dict(
         category="translation_validation", design_ref="§5 C10", engine="S",
         text="Matrix source/target 18..25 x entry {ir.Model, ModelProto} x fallback {True, False} over models with the three adapter ops (GroupNormalization exact, DFT/GridSample uninterpreted over canonical attributes), unchanged ops, If-subgraphs, model-local functions, initializer-inputs; plus legacy sources 10/11/13 with attribute-form Pad/Squeeze/Unsqueeze/ReduceSum/Split/ReduceMean converted to 18/21 (outside the property's quantifier, inside its statement: a refusal must leave the old form under the old declaration). symonnx interprets each side under the opset it DECLARES (schema arity/attribute validation), so a half-converted model is a semantic counterexample; z3 decides equality for all inputs; declared version, function opsets, signature, initializers and the (num_groups, epsilon, stash_type) of every GroupNormalization are side verdicts.",
@@ -69,16 +69,16 @@ CLAIMED = {
         note=S_NOTE + " skip_initializers: the generated make_model() is called with the original values of the skipped initializers.", technique="translation validation of the proto2python round trip: symbolic ONNX semantics, z3 equivalence; CrossHair lemmas on helpers"),
     "C14": dict(
         category="other", design_ref="§5 C14", engine="X",
-        text="(a) hash randomisation as a schedule: converter/analysis re-executed with every set iteration order chosen by CrossHair; FunctionProto bytes must not depend on it; confirmed with real PYTHONHASHSEED subprocesses. (b) histories as arbitrary pre-state: per-match fields of rule singletons (AST-discovered each run) havocked with symbolic values before rewrite(); bytes must equal the fresh-object run. (d) histories of whole transformations: a symbolic history (1 model quick, 2 thorough) and a symbolic target from a 36-model table (12 operator kinds, one for every version-ranged evaluator of the folder's registry, x opsets 11/13/18; script sources; models that need the 19->20 / 20->21 adapters) go through optimize / convert_version / proto2python / script decoration / one re-used FoldConstantsPass object (the table has a model that folds, then fails) in one process - each history in a forked child of a worker that has only imported the library, so that paths do not see each other's leftovers and a counterexample replays from its own history; the target bytes must equal the fresh-process baseline (subprocess per pair); indices concretised by comparison forks, the transformation runs concretely. (c) concrete probe: repeated to_model_proto, post-decoration rebinding and in-place mutation of globals.",
+        text="(a) hash randomisation as a schedule: converter/analysis re-executed with every set iteration order chosen by CrossHair; FunctionProto bytes must not depend on it; confirmed with real PYTHONHASHSEED subprocesses. (b) histories as arbitrary pre-state: per-match fields of rule singletons (AST-discovered each run) havocked with symbolic values before rewrite(); bytes must equal the fresh-object run. (d) histories of whole transformations: a symbolic history (1 model quick, 2 thorough) and a symbolic target from a 36-model table (12 operator kinds, one for every version-ranged evaluator of the folder's registry, x opsets 11/13/18; script sources; models that need the 19->20 / 20->21 adapters) go through optimize / convert_version / proto2python / script decoration / one re-used FoldConstantsPass object (the table has a model that folds, then fails) in one process - each history in a forked child of a worker that has only imported the library, so that paths do not see each other's leftovers and a counterexample replays from its own history; the target bytes must equal the fresh-process baseline (subprocess per pair); indices concretised by comparison forks, the transformation runs concretely. (c) concrete probe: repeated to_model_proto, post-decoration rebinding and in-place mutation of globals. (a) now also covers the rewriter, the matcher, the constant folder and the version converter under the order cut (targets rw3 / rwfn / fold / convert; found the opset-import order defect); (d) has a seventh transformation: ONE reused RewriteRuleSet object (an as_function rule + two stateful shipped rules) over a symbolic history.",
         note="Trusted: CrossHair; order cut applied in memory by vp/loader.py; <=4 schedule choices per translation; 4 rule targets. Narrow: file system / time / other processes not modelled.",
         technique="symbolic execution (CrossHair+z3) with solver-chosen set-iteration schedules, havocked singleton state and solver-partitioned transformation histories vs fresh-process baselines; PYTHONHASHSEED replay"),
     "C18": dict(
         category="translation_validation", design_ref="§5 C18", engine="S+X",
-        text="Seeded random traces through the real GraphBuilder/OpBuilder (literals in every position, inputs given by keyword, _outputs, module scopes, If subgraphs capturing outer values) are shadowed by a symbolic replay that applies symonnx's rule per call with the property's own promotion rule; z3 decides [[built graph]] == replay for ALL inputs, and [[call]] == [[call_inline]] for script functions with attribute arguments, literal arguments and calls of other script functions (every callee must be defined in the model). Naming: (X) nn construction histories of <=4 (quick) / 5 (thorough) steps over 10 step kinds (create list / list with children / sequential, nest, attach to a root that is named at construction / at the end / never and may own a parameter called like the leaves', children called directly or inside an If branch built by a sub-builder, append/extend after naming, slice) are solver variables concretised by comparison forks; every Parameter must appear once as the initializer root.name + state_dict key and be the Parameter object, names unique, checker passes. Random module trees (depth<=4), value/node naming of traces and six traces with operators of non-default domains (validity only) and If nested 2-3 levels with equal graph names (validity + concrete values) are enumeration, labelled.",
+        text="Seeded random traces through the real GraphBuilder/OpBuilder (literals in every position, inputs given by keyword, _outputs, module scopes, If subgraphs capturing outer values) are shadowed by a symbolic replay that applies symonnx's rule per call with the property's own promotion rule; z3 decides [[built graph]] == replay for ALL inputs, and [[call]] == [[call_inline]] for script functions with attribute arguments, literal arguments and calls of other script functions (every callee must be defined in the model). Naming: (X) nn construction histories of <=4 (quick) / 5 (thorough) steps over 10 step kinds (create list / list with children / sequential, nest, attach to a root that is named at construction / at the end / never and may own a parameter called like the leaves', children called directly or inside an If branch built by a sub-builder, append/extend after naming, slice) are solver variables concretised by comparison forks; every Parameter must appear once as the initializer root.name + state_dict key and be the Parameter object, names unique, checker passes. Random module trees (depth<=4), value/node naming of traces and six traces with operators of non-default domains (validity only) and If nested 2-3 levels with equal graph names (validity + concrete values) are enumeration, labelled. Call hosts extended with IR functions (build_function) that return one of their inputs, called on graph inputs (interface must stay).",
         note=S_NOTE, technique="translation validation of traced graphs against a symbolic shadow replay; z3 equivalence; CrossHair-partitioned construction histories for module naming; structural enumeration for names"),
     "C20": dict(
         category="other", design_ref="§5 C20", engine="X",
-        text="CrossHair/z3 symbolic execution of the real save_model_with_external_data with ir.save stubbed: which initializers are uninitialised, path shape, verbose/tqdm and whether the save faults are solver variables; refusal-before-write, a single ir.save call naming a sibling data file (a bare file name other than the model's own), exception propagation and object identity of the initializers are decided over all combinations - this group runs only while a concrete probe confirms that the function still delegates to one ir.save(external_data=...) call (otherwise it is reported inconclusive and the second group decides alone). Second group: the real onnx_ir.save runs under the wrapper in a scratch directory; initializer kinds (in-memory small/large/zero-size/scalar/uint8, already external elsewhere, already external in the destination, owned by an If branch above / below the externalisation threshold) and the index of the write-side file-system operation (open/write/flush/close) that raises OSError are solver variables concretised by comparison forks; identity, external references, bytes and serialized structure of the in-memory model afterwards, and the ir.load round trip on success, are checked per instance.",
+        text="CrossHair/z3 symbolic execution of the real save_model_with_external_data with ir.save stubbed: which initializers are uninitialised, path shape, verbose/tqdm and whether the save faults are solver variables; refusal-before-write, a single ir.save call naming a sibling data file (a bare file name other than the model's own), exception propagation and object identity of the initializers are decided over all combinations - this group runs only while a concrete probe confirms that the function still delegates to one ir.save(external_data=...) call (otherwise it is reported inconclusive and the second group decides alone). Second group: the real onnx_ir.save runs under the wrapper in a scratch directory; initializer kinds (in-memory small/large/zero-size/scalar/uint8, already external elsewhere, already external in the destination, owned by an If branch above / below the externalisation threshold) and the index of the write-side file-system operation (open/write/flush/close) that raises OSError are solver variables concretised by comparison forks; identity, external references, bytes and serialized structure of the in-memory model afterwards, and the ir.load round trip on success, are checked per instance. Group 3 (added): an uninitialised initializer in the main graph or owned by an If branch beside 0..1 other initializers must be refused with ValueError before anything is written (found the subgraph-guard defect).",
         note="Trusted: CrossHair models; group 1: ir.save replaced by a recording stub, <=3 initializers, 8 path shapes; group 2: open() proxies are the only stubs, <=2 (quick) / 3 (thorough) initializers, one fault per run, rename/fsync not used by the installed onnx_ir; the instance space is finite and explored exhaustively through solver-decided forks, the code under the forks runs concretely (protobuf / NumPy / file I/O are C boundaries).",
         technique="symbolic execution (CrossHair+z3) of the real function with a faulting stub for ir.save; solver-partitioned fault-point and tensor-kind space over the real save; vacuity twins"),
     "C11": dict(
